@@ -9,15 +9,15 @@ git checkout -q -- . ; rm -f "$pkg"/zz_demo_test.go
 git apply "mutants/$n/patch.diff" || { echo "APPLY-FAIL"; exit 1; }
 go build ./... || { echo "BUILD-FAIL"; git checkout -q -- .; exit 1; }
 if [ "$suite" = suite ]; then
-  go test -vet=off -count=1 ./... 2>&1 | grep -E "^(FAIL|---)" | grep -v -E "TestSendHistogram|TestSendMetricDimensions|TestSendMetrics|pkg/backends/cloudwatch|^FAIL$" > /tmp/confirm-suite.txt
-  if [ -s /tmp/confirm-suite.txt ]; then echo "SUITE-FAIL"; cat /tmp/confirm-suite.txt | head; git checkout -q -- .; exit 1; fi
+  go test -vet=off -count=1 $(go list ./... | grep -v /mutants/) 2>&1 | grep -E "^(FAIL|---)" | grep -v -E "TestSendHistogram|TestSendMetricDimensions|TestSendMetrics|pkg/backends/cloudwatch|^FAIL$" > $wt/.confirm-suite.txt
+  if [ -s $wt/.confirm-suite.txt ]; then echo "SUITE-FAIL"; cat $wt/.confirm-suite.txt | head; git checkout -q -- .; exit 1; fi
   echo "suite ok"
 fi
 cp "mutants/$n/demo_test.go" "$pkg/zz_demo_test.go"
-if go test -vet=off -count=1 -run "$rx" "./$pkg/" >/tmp/confirm-demo1.txt 2>&1; then echo "DEMO-DID-NOT-FAIL-WITH-PATCH"; rm -f "$pkg/zz_demo_test.go"; git checkout -q -- .; exit 1; fi
+if go test -vet=off -count=1 -run "$rx" "./$pkg/" >$wt/.confirm-demo1.txt 2>&1; then echo "DEMO-DID-NOT-FAIL-WITH-PATCH"; rm -f "$pkg/zz_demo_test.go"; git checkout -q -- .; exit 1; fi
 echo "demo fails with patch"
 git checkout -q -- .
-if ! go test -vet=off -count=1 -run "$rx" "./$pkg/" >/tmp/confirm-demo2.txt 2>&1; then echo "DEMO-FAILS-WITHOUT-PATCH"; tail -5 /tmp/confirm-demo2.txt; rm -f "$pkg/zz_demo_test.go"; exit 1; fi
+if ! go test -vet=off -count=1 -run "$rx" "./$pkg/" >$wt/.confirm-demo2.txt 2>&1; then echo "DEMO-FAILS-WITHOUT-PATCH"; tail -5 $wt/.confirm-demo2.txt; rm -f "$pkg/zz_demo_test.go"; exit 1; fi
 echo "demo passes without patch"
 rm -f "$pkg/zz_demo_test.go"
 echo CONFIRMED
